@@ -42,7 +42,15 @@ namespace drv {
       const Name* ns[2] = { &n0, &n1 }; const Type* ts[2] = { &t0, &t1 }; int ni[MAXH] = { ni0, ni1, ni2 }; int ti[MAXH] = { ti0, ti1, ti2 };
       unsigned bad = 0;
       for (int i = 0; i < MAXH; ++i) if (i < k) {
-         h.n[i] = ns[ni[i]]; h.t[i] = ts[ti[i]]; h.d[i] = r.declare_var(*h.n[i], *h.t[i]);
+         h.n[i] = ns[ni[i]]; h.t[i] = ts[ti[i]];
+         {  // query, declare, query: the very name and type about to be declared are looked up first (expected: found iff declared earlier)
+            bool declared = false, named = false;
+            for (int j = 0; j < MAXH; ++j) if (j < i) { if (h.n[j] == h.n[i]) named = true; if (h.n[j] == h.n[i] && h.t[j] == h.t[i]) declared = true; }
+            Optional<ipr::Overload> ov = static_cast<const ipr::Region&>(r).bindings()[*h.n[i]];
+            if (ov.is_valid() != named) bad |= 4u;
+            if (ov.is_valid() && ov.get()[*h.t[i]].is_valid() != declared) bad |= 16u;
+         }
+         h.d[i] = r.declare_var(*h.n[i], *h.t[i]);
          Hist p = h; p.k = i + 1; bad |= scope_clauses(r.bindings(), p, n2, t2);                                               // the clauses hold after EVERY step of the history
       }
       return bad;
@@ -75,6 +83,18 @@ namespace drv {
          if (&d[i]->name() != n[i]) bad |= 256u;
       }
       if (s[other].is_valid()) bad |= 32u;
+      return bad;
+   }
+   // a member reports the position it was constructed with, for every position (not only small ones)
+   unsigned s_position(const Name& n, const Type& t, const Region& r, const ipr::Enum& e, std::size_t pos)
+   {
+      unsigned bad = 0;
+      const ipr::Parameter& p = *new impl::Parameter{ n, t, Decl_position{ pos } };
+      if (p.position() != Decl_position{ pos }) bad |= 512u;
+      const ipr::Enumerator& en = *new impl::Enumerator{ n, e, Decl_position{ pos } };
+      if (en.position() != Decl_position{ pos }) bad |= 512u;
+      const ipr::Base_type& b = *new impl::Base_type{ t, r, Decl_position{ pos } };
+      if (b.position() != Decl_position{ pos }) bad |= 512u;
       return bad;
    }
    unsigned s_parameters(L& lx, Mapping_level lv, const Name& n0, const Name& n1, const Name& n2, const Name& other, const Type& t0, const Type& t1, const Type& t2, int k)
